@@ -378,6 +378,11 @@ impl Future for Race2 {
 struct Root {
     ws: Option<Pin<Box<dyn Stream<Item = WsMessage> + Send>>>,
     sess: Arc<Sess>,
+    /// a Close frame is being flushed by the transport (gate "sink"): the
+    /// consumer polls the session again only after the schedule lets it, so
+    /// environment events (the keep-alive timer) can fall between the Close
+    /// and the next poll
+    sink: Option<Pin<Box<dyn Future<Output = ()> + Send>>>,
 }
 
 impl Future for Root {
@@ -390,6 +395,12 @@ impl Future for Root {
         }
         *this.sess.root_waker.lock().unwrap() = Some(cx.waker().clone());
         loop {
+            if let Some(sink) = this.sink.as_mut() {
+                match sink.as_mut().poll(cx) {
+                    Poll::Ready(()) => this.sink = None,
+                    Poll::Pending => return Poll::Pending,
+                }
+            }
             let Some(ws) = this.ws.as_mut() else {
                 return Poll::Pending;
             };
@@ -397,7 +408,10 @@ impl Future for Root {
                 Poll::Ready(Some(m)) => {
                     let msg = match m {
                         WsMessage::Text(t) => Out::Text(t),
-                        WsMessage::Close(c, r) => Out::Close(c, r),
+                        WsMessage::Close(c, r) => {
+                            this.sink = Some(Box::pin(this.sess.sched.gate("sink")));
+                            Out::Close(c, r)
+                        }
                     };
                     this.sess.push(Ev::Out { pos: this.sess.pos(), msg });
                 }
@@ -436,6 +450,8 @@ pub struct Driver {
     pub skipped: usize,
     pub last_effective: bool,
     pub timer_unarmed_skips: usize,
+    /// the keep-alive timer was already offered after the session closed
+    post_close_timer_done: bool,
 }
 
 fn gate_inst(label: &str, prefix: &str) -> Option<u32> {
@@ -748,7 +764,22 @@ impl Chooser for Driver {
         self.sess.push(Ev::Quiescent { pos: self.idx });
         self.sync();
         loop {
-            if self.monitor.over() {
+            if self.monitor.over() || self.monitor.closed {
+                // After a close the session must stay silent whatever the environment does. The Close frame is
+                // still being flushed (gate "sink"): let the keep-alive interval elapse first, then let the
+                // consumer poll again; W1 of the monitor judges anything that comes out.
+                if !self.post_close_timer_done {
+                    self.post_close_timer_done = true;
+                    if let Some(i) = armed.iter().position(|a| a.label == "timer") {
+                        self.sess.push(Ev::Env { pos: self.idx, sym: "timer".to_string(), label: "timer".to_string() });
+                        self.used.push("env_timer_after_close");
+                        return i;
+                    }
+                }
+                if let Some(i) = armed.iter().position(|a| a.label == "sink") {
+                    self.used.push("polls_after_close");
+                    return i;
+                }
                 return self.stop(tick);
             }
             if let Some((prefix, kind, after, name)) = self.pending_multi.take() {
@@ -846,6 +877,7 @@ pub fn run_session(schema: &WsSchema, cfg: Cfg, source: Source, feats: Features,
         skipped: 0,
         last_effective: true,
         timer_unarmed_skips: 0,
+        post_close_timer_done: false,
     };
 
     let result = vh_core::catch(|| {
@@ -885,7 +917,7 @@ pub fn run_session(schema: &WsSchema, cfg: Cfg, source: Source, feats: Features,
                 }
             })
             .keepalive_timeout(VTimer(sess.clone()), Duration::from_secs(30));
-        let root = Root { ws: Some(Box::pin(ws)), sess: sess.clone() };
+        let root = Root { ws: Some(Box::pin(ws)), sess: sess.clone(), sink: None };
         sched.run(root, &mut driver, false, max_len * 3 + 16)
     });
 
